@@ -108,7 +108,8 @@ class SIMEX1(GL_book_model):
             gov.SetExogenous('DEM_GOOD', '[0.,] + [20.,] * 105')
             # In order to replicate the book results, we need to patch in this initial condition so that the
             # expected income in period 1 is 16.
-            self.Model.AddInitialCondition('HH', 'AfterTax', 16.)
+            # Addressed through the sector object, so that this also works when embedded in a multi-country model.
+            hh.AddInitialCondition('AfterTax', 16.)
         return self.Model
 
     def expected_output(self):
